@@ -1238,6 +1238,80 @@ def gen_toggle(repo):
            "end LLFree.Gen.B"]
     return "\n".join(out) + "\n"
 
+class CheckEmit:
+    """conditions of the `ensure!` lines of `LLFree::check` (usize arithmetic as `Nat` with the explicit 2^64 bound
+    of `checked_add`)"""
+    def ex(self, e):
+        k = e[0]
+        if k == 'num': return str(e[1])
+        if k == 'path':
+            n = e[1]
+            if n == 'TREE_ORDER': return 'treeOrder'
+            if n == 'end': return 'end_'
+            if n == 'frame': return 'frame'
+            raise TranslateError(f"check: path {n}")
+        if k == 'field':
+            if e[1] == ('path', 'frame') and e[2] == '0': return 'frame'
+            if e[1] == ('path', 'request') and e[2] == 'order': return 'order'
+            raise TranslateError(f"check: field {e}")
+        if k == 'bin':
+            a, b = self.ex(e[2]), self.ex(e[3])
+            if e[1] == '<<': return f"({a} <<< {b})"
+            if e[1] == '<=': return f"(decide ({a} ≤ {b}))"
+            if e[1] == '<': return f"(decide ({a} < {b}))"
+            raise TranslateError(f"check: operator {e[1]}")
+        if k == 'mcall':
+            recv, name, args = e[1], e[2], e[3]
+            if name == 'frames' and recv == ('field', ('path', 'self'), 'lower') and not args: return 'frames'
+            if name == 'is_some_and' and recv[0] == 'mcall' and recv[2] == 'checked_add':
+                c = args[0]
+                if c[0] != 'closure' or len(c[1]) != 1 or c[1][0][0] != 'pvar': raise TranslateError("check: is_some_and closure")
+                v = 'end_' if c[1][0][1] == 'end' else c[1][0][1]
+                s = f"({self.ex(recv[1])} + {self.ex(recv[3][0])})"
+                body = self.ex(c[2]) if v == 'end_' else None
+                if body is None: raise TranslateError("check: closure variable")
+                return f"(decide ({s} < 2 ^ 64) && (let end_ := {s}; {body}))"
+            if name == 'is_multiple_of': return f"({self.ex(recv)} % {self.ex(args[0])} == 0)"
+            if name == 'is_some' and recv[0] == 'mcall' and recv[2] == 'class_locals' and \
+                    recv[3] == [('field', ('path', 'request'), 'class')]:
+                return "classLocals.isSome"
+            raise TranslateError(f"check: method .{name}()")
+        raise TranslateError(f"check: expression {k}")
+
+def gen_check(repo):
+    """`LLFree::check` (llfree.rs): the conjunction of its `ensure!` conditions"""
+    src = read(os.path.join(repo, 'core/src/llfree.rs'))
+    mac = block_after(src, 'macro_rules! ensure {')
+    norm = re.sub(r"\s+", "", mac)
+    if not norm.startswith("{($cond:expr,$($args:expr),*)=>{if!($cond){log::error!($($args),*);returnErr(Error::Argument);}};"):
+        raise TranslateError("macro ensure!: the plain form must return Err(Error::Argument) when the condition fails")
+    params, body = extract_fn(src, 'check')
+    if re.sub(r"\s+", "", params) != "&self,frame:FrameId,request:&Request":
+        raise TranslateError(f"check: unexpected signature ({params})")
+    ast = P(tokenize_str(body)).block()
+    if ast[2] != ('call', 'Ok', [('tuple', [])]): raise TranslateError(f"check: result {ast[2]}")
+    em = CheckEmit(); conds = []
+    for st in ast[1]:
+        if st[0] != 'expr' or st[1][0] != 'macro' or st[1][1] != 'ensure': raise TranslateError(f"check: statement {st[0]}")
+        toks = st[1][2]; depth = 0; cut = None
+        for i, (k, v) in enumerate(toks):
+            if k == 'op' and v in '([{': depth += 1
+            elif k == 'op' and v in ')]}': depth -= 1
+            elif k == 'op' and v == ';' and depth == 0: raise TranslateError("check: ensure! with an explicit error")
+            elif k == 'op' and v == ',' and depth == 0 and cut is None: cut = i
+        if cut is None: raise TranslateError("check: ensure! without message")
+        conds.append(em.ex(P(toks[:cut] + [('eof', None)]).expr()))
+    out = ["/- GENERATED by tools/rs2lean.py from core/src/llfree.rs (`LLFree::check`) — do not edit. -/",
+           "namespace LLFree.Gen.C", "",
+           "/-- the `ensure!` conditions of `LLFree::check`, in order; a failing one returns `Error::Argument`",
+           "    (`frames` = `self.lower.frames()`, `classLocals` = `self.locals.class_locals(request.class)`) -/",
+           "def checkConds (treeOrder frames frame order : Nat) (classLocals : Option Nat) : List Bool :=",
+           "  [" + ",\n   ".join(conds) + "]", "",
+           "def check (treeOrder frames frame order : Nat) (classLocals : Option Nat) : Bool :=",
+           "  (checkConds treeOrder frames frame order classLocals).all id", "",
+           "end LLFree.Gen.C"]
+    return "\n".join(out) + "\n"
+
 def gen_huge(repo):
     """`impl HugeEntry` (lower.rs): a u16 counter with `u16::MAX` as the marker of a huge allocation"""
     src = read(repo + '/core/src/lower.rs')
@@ -1276,7 +1350,7 @@ def gen_huge(repo):
     out.append("end LLFree.Gen.H")
     return "\n".join(out) + "\n"
 
-GENERATORS = {'Consts': gen_consts, 'Fza': gen_fza, 'Leaf': gen_leaf, 'Tree': gen_tree, 'Local': gen_local, 'Huge': gen_huge, 'Policy': gen_policy, 'Toggle': gen_toggle}
+GENERATORS = {'Consts': gen_consts, 'Fza': gen_fza, 'Leaf': gen_leaf, 'Tree': gen_tree, 'Local': gen_local, 'Huge': gen_huge, 'Policy': gen_policy, 'Toggle': gen_toggle, 'Check': gen_check}
 
 def write_if_changed(path, txt):
     if os.path.exists(path) and read(path) == txt: return False
